@@ -85,6 +85,10 @@ impl LockableMapConfig for LockableHashMapConfig {
     fn on_unlock<V>(&self, _v: Option<&mut V>) {
         // no-op
     }
+    #[cfg(feature = "verif_hooks")]
+    fn verif_stamp<V>(_v: &V) -> Option<tokio::time::Instant> {
+        None
+    }
 }
 
 /// A threadsafe hash map where individual keys can be locked/unlocked, even if there is no entry for this key in the map.
@@ -293,6 +297,16 @@ where
     #[inline]
     pub fn num_entries_or_locked(&self) -> usize {
         self.map_impl.num_entries_or_locked()
+    }
+
+    /// Verification hook: snapshot of the internal state.
+    #[cfg(feature = "verif_hooks")]
+    #[doc(hidden)]
+    pub fn verif_snapshot(&self) -> crate::verif_hooks::Snapshot<K, V>
+    where
+        V: Clone,
+    {
+        self.map_impl.verif_snapshot()
     }
 
     /// Lock a key and return a guard with any potential map entry for that key.
